@@ -11,6 +11,7 @@ import (
 	"os"
 	"path/filepath"
 	"strings"
+	"time"
 
 	"github.com/wader/fq/internal/verif/core"
 	"github.com/wader/fq/internal/verif/dsl"
@@ -78,7 +79,7 @@ func checkStdout(r *core.Run, sig, what string, c *CLICase, data []byte, want []
 // harness' byte forms; for programs with <= sliceOps ops the raw output of the root of
 // a decode of a byte/bit sliced binary equals the slice; for programs with <= fmtOps
 // ops: -o bits_format=F for every F.
-func runCLI(r *core.Run, rawOps, sliceOps, fmtOps int) bool {
+func runCLI(r *core.Run, until time.Time, rawOps, sliceOps, fmtOps int) bool {
 	w, err := NewWalker(r, C05Driver)
 	if err != nil {
 		panic(err)
@@ -89,8 +90,8 @@ func runCLI(r *core.Run, rawOps, sliceOps, fmtOps int) bool {
 		if !r.Mine(idx) {
 			return true
 		}
-		if r.Expired() {
-			r.NotExhaustive("deadline during the command line part")
+		if r.Expired() || time.Now().After(until) {
+			r.NotExhaustive("deadline (or this part's share of it) during the command line part")
 			complete = false
 			return false
 		}
